@@ -64,6 +64,7 @@ func frameBound(w *World, rd *ssa.Function) int64 {
 	if rd == nil {
 		return -1
 	}
+	defer w.restoreFocus(w.focus)
 	f := w.Facts(rd)
 	var bound int64 = -1
 	for _, b := range rd.Blocks {
